@@ -81,7 +81,11 @@ func DefaultRefNameResolver(doc *T, ref ComponentRef) string {
 					break
 				}
 
-				commonDir = path.Dir(commonDir)
+				parentDir := path.Dir(commonDir)
+				if parentDir == commonDir { // reached "/" of an absolute root path: no common prefix
+					break
+				}
+				commonDir = parentDir
 			}
 		}
 	}
